@@ -375,6 +375,19 @@ class JacobianAssembly:
                             break
 
             if variable not in self.sizes:
+                # No differentiated function depends on this variable:
+                # its size cannot be read from a Jacobian,
+                # use the value passed to a discipline having it as input.
+                for discipline in self.coupling_structure.disciplines:
+                    input_grammar = discipline.io.input_grammar
+                    if variable in input_grammar and variable in discipline.io.data:
+                        self.sizes[variable] = input_grammar.data_converter.get_value_size(
+                            variable, discipline.io.data[variable]
+                        )
+                        self.disciplines[variable] = discipline
+                        break
+
+            if variable not in self.sizes:
                 msg = f"Failed to determine the size of input variable {variable}"
                 raise ValueError(msg)
 
